@@ -1326,8 +1326,8 @@ class ExtendNode(ViewRepresentation):
             return False
         if not self.reverse == other.reverse:
             return False
-        if set(self.ops.keys()) != set(other.ops.keys()):
-            return False
+        if list(self.ops.keys()) != list(other.ops.keys()):
+            return False  # the order of the assignments shows in column order and SQL text
         for k in self.ops.keys():
             if not self.ops[k].is_equal(other.ops[k]):
                 return False
@@ -1562,8 +1562,8 @@ class ProjectNode(ViewRepresentation):
             return False
         if not self.group_by == other.group_by:
             return False
-        if set(self.ops.keys()) != set(other.ops.keys()):
-            return False
+        if list(self.ops.keys()) != list(other.ops.keys()):
+            return False  # the order of the assignments shows in column order and SQL text
         for k in self.ops.keys():
             if not self.ops[k].is_equal(other.ops[k]):
                 return False
